@@ -56,6 +56,7 @@ package v1
 
 // ---- manipulations (C19): every given key sets exactly its field to exactly the given value; errors are reported
 //@ func (Manipulations).Apply returns (err)
+//@   bounded TestVerifBoundedManipulations
 //@   props C19
 //@   uses raw.smt2 names.smt2
 //@   requires c != nil
@@ -533,6 +534,7 @@ package v1
 // initProfile (C08, C09, C04): name, subject attribute list and validity are taken over as parsed; every extension keeps
 // its position and its optional/override flags.
 //@ func initProfile returns (res, err)
+//@   bounded TestVerifBoundedProfile
 //@   props C08 C09 C04 C20
 //@   ghostret EXT (View Any) = seq(extTmp)
 //@   ghostret VAL gopki/generator/config.CertificateValidity = callres("(gopki/generator/config/v1.CertValidity).toTimeStruct", 1, 0)
